@@ -21,7 +21,7 @@ RULE = ("Part A (schedules): retries r in 1..4, every pattern of per-transmissio
         "1.5, 2.25} x T (7^r), T = the library's read timeout as measured against a silent device, V2 and V3; the device-side log of transmissions (count, instants) and the outcome are compared "
         "with a 6-line reference model of the retry contract; the r=3 patterns also through AirConditioner.refresh (online flag). "
         "Part B (fault sequences, E2): every single fault and every ordered pair of consecutive faults from {drop, error packet, "
-        "marker-free garbage, marker-bearing garbage, peer close} x {handshake, data phase}, connect refused, connect hang, "
+        "marker-free garbage, marker-bearing garbage, peer close} x {handshake, data phase}, connect refused / unreachable / unresolvable / hanging, "
         "cancellation at every interval between loop events, from start states {cold, warm, peer-closed idle, auth expired}; "
         "then one exchange with an honest prompt device must succeed with no user call in between (V3: after a new handshake). "
         "state = (protocol, start, fault history) ; transition = one exchange")
@@ -232,6 +232,8 @@ def faults(version):
             out.append(("error", ph))
     out.append(("refuse", None))
     out.append(("hang", None))
+    out.append(("unreachable", None))     # connect fails with a plain OSError (no route to host)
+    out.append(("dns", None))             # ... or with a resolver error
     return out
 
 
@@ -283,6 +285,10 @@ def exec_B(version, start, seq, cancel_spec=None, trace_op=None):
             return SimNet.REFUSE
         if f is not None and f[0] == "hang":
             return SimNet.HANG
+        if f is not None and f[0] == "unreachable":
+            return SimNet.UNREACHABLE
+        if f is not None and f[0] == "dns":
+            return SimNet.DNS
         return None
 
     ac_model = RefAC({"power": True, "temp": 22.5, "mode": 4, "fan": 60, "eco": True})
